@@ -1,7 +1,8 @@
 """Replay / bounded cross-check for C20 on the real code, without a server
 process: a managers.Server allocated with __new__ (tables, RLock, registry with
 one type), driven through create / incref / decref by every sequence of up to 5
-operations on up to two objects, compared with a reference count model; and
+operations on up to two objects (one of them possibly a singleton that
+every create() of its type returns again), compared with a reference count model; and
 handle_request over scripted connections with a correct key, a wrong key, a
 non-public method name and a raising method.
 """
@@ -21,7 +22,9 @@ class Referent:
 
 def mkserver():
     s = M.Server.__new__(M.Server)
-    s.registry = {'thing': (Referent, None, None, None)}
+    single = Referent()
+    # 'single': the common register('get_queue', callable=lambda: q) pattern -- every create() returns the same referent
+    s.registry = {'thing': (Referent, None, None, None), 'single': (lambda: single, None, None, None)}
     s.id_to_obj = {'0': (None, ())}
     s.id_to_refcount = {}
     s.mutex = threading.RLock()
@@ -32,16 +35,17 @@ def mkserver():
 
 def scen_tables():
     bad = []
-    for ops in itertools.product(('create', 'inc0', 'dec0', 'inc1', 'dec1'), repeat=5):
+    for ops in itertools.product(('create', 'single', 'inc0', 'dec0', 'inc1', 'dec1'), repeat=5):
         s = mkserver()
         ids, ref = [], {}
         keep = []
         for op in ops:
             try:
-                if op == 'create':
-                    ident, exposed = s.create(None, 'thing')
+                if op in ('create', 'single'):
+                    ident, exposed = s.create(None, 'thing' if op == 'create' else 'single')
                     keep.append(s.id_to_obj[ident][0])       # keep the referent alive: ids are memory addresses
-                    ids.append(ident)
+                    if ident not in ids:
+                        ids.append(ident)
                     ref[ident] = ref.get(ident, 0) + 1
                     if 'ping' not in exposed:
                         bad.append('create() exposes %r' % (exposed,))
